@@ -13,6 +13,19 @@ COMMON_NOTE = ("Trusted: Lean 4.33.0 kernel; axioms per theorem as printed by #p
 
 # property id -> dict(level, text, technique, note, design_ref)
 CLAIMED = {
+    "C05": dict(
+        level="proof",
+        text="Lean theorems about a model of the three optimizer passes (post-order walker with the 10-iteration cap, constant folding "
+             "incl. comma/logical rewrites, strength reduction, dead-code elimination with the hoisted-declaration guard): "
+             "optimize_expr_sound and optimize_sound_partial — for every program, option subset, world and state the optimized program "
+             "performs the same events in the same order and declares the same hoisted names — parametric in the literal arithmetic the "
+             "optimizer shares with the runtime (hypotheses S.Laws). The model is tied to the code by comparing boa's optimized AST with the "
+             "model's on generated programs (S-expression dumps), and the property's own differential (each option subset vs optimizer off) "
+             "runs on richer programs with observable valueOf/toString/getter logs. PARTIAL: statement completion values are outside the "
+             "model (known finding C05-dce-completion).",
+        technique="Lean 4 structural-induction proofs over an optimizer model + AST-to-AST correspondence with boa's optimizer + option-subset trace differential",
+        note="The literal operator semantics is a parameter (S.Laws assumed: x/2 = x*0.5, x**2 = x*x for non-BigInt literals, truthiness of booleans).",
+    ),
     "C15": dict(
         level="proof",
         text="Lean theorems: f64ToInt32_spec (the bit manipulation of f64_to_int32 equals ToInt32 for every one of the 2^64 bit patterns), "
